@@ -39,6 +39,7 @@ def members_in(n):
 
 
 def run(P, R, tier):
+    hiddenrun_rule(P, R)
     R.undecided += ["(e) toggling sinks does not change results", "byte identity of files on disk (buffering, open failures)"]
     R.rule("C09.dual", "*_msg overrides pass the unmodified text to the string sink (under its switch) and the file sink; base call unconditional", minimum=10)
     for q, sw, on, strm, base, ost in STREAMS:
@@ -949,3 +950,49 @@ def _chk_inverse_stats_always(P, g):
 
 
 PRINTWRITE_CHECKS = {"species_list_restored": _chk_species_list_restored, "xgas_resets": _chk_xgas_resets, "inverse_stats_always": _chk_inverse_stats_always}
+
+
+def hiddenrun_rule(P, R):
+    """"whenever file sink and string sink are both enabled ... they receive byte-identical content; a disabled sink receives nothing":
+    LoadDatabase / LoadDatabaseString run a hidden test input (test_db -> RunString).  They silence the run by clearing <X>FileOn before
+    and restoring it after; the two sinks of a stream stay identical only if <X>StringOn is cleared and restored with it.  The error
+    stream is the exception: the load reports through GetErrorString, so its string sink must stay on (and the file sink is a
+    convenience copy that the load suppresses)."""
+    RULE = "C09.hiddenrun"
+    R.rule(RULE, "functions that hide the database test run switch off and restore the string sink of every stream whose file sink they switch off (error stream excepted)", minimum=4)
+    n = 0
+    for f in sorted(P.functions.values(), key=lambda g: (g["file"], g["line"])):
+        if not f.get("body") or f.get("cls") != "IPhreeqc":
+            continue
+        calls = [c for c in T.calls(f["body"]) if T.callee_q(c) == "IPhreeqc::test_db"]
+        if not calls:
+            continue
+        line = calls[0][1]
+        off, restored = set(), set()
+        for t, how, ln, w in T.writes(f["body"]):
+            root, steps = T.access_path(t)
+            if how != "=" or not steps or steps[0][0] != "f":
+                continue
+            m = steps[0][1].split("::")[-1]
+            r = T.strip_casts(w[4])
+            if ln < line and T.is_node(r) and r[0] == "Lit" and str(r[3]) in ("false", "0"):
+                off.add(m)
+            elif ln > line and T.is_node(r) and r[0] == "Ref" and r[2] == "local":
+                restored.add(m)
+        for m in sorted(off):
+            if not m.endswith("FileOn"):
+                continue
+            stream = m[:-len("FileOn")]
+            inst = "%s:%s" % (f["name"], stream)
+            n += 1
+            if stream == "Error":
+                R.ok(RULE, inst, "error stream: the string sink is the load's own report channel")
+                continue
+            sm = stream + "StringOn"
+            if sm in off and sm in restored and m in restored:
+                R.ok(RULE, inst, "%s and %s cleared before test_db and restored after" % (m, sm))
+            else:
+                R.violation(RULE, inst, "%s clears %s for the hidden test run but not %s (or does not restore it): with both sinks enabled the string receives the hidden run's "
+                            "text and the file nothing" % (f["name"], m, sm), file=f["file"], line=line, function=f["q"])
+    if n < 4:
+        R.anchor_missing(RULE, "only %d file switches cleared around test_db" % n)
